@@ -74,7 +74,8 @@ static const char *syminitchtab =
 static bool
 issyminitch(const char c)
 {
-    return strchr(syminitchtab, c) != NULL;
+    /* strchr() also finds the table's terminator; NUL is no symbol character. */
+    return c != '\0' && strchr(syminitchtab, c) != NULL;
 }
 
 static bool
